@@ -59,6 +59,8 @@ pub struct Readout {
 
 #[derive(Clone, Debug)]
 pub enum BK {
+    /// the second bridge of the process reports something else than what was put into it
+    DecoyWrong { key: usize, got: f64, want: f64 },
     RegEnd { key: usize },
     UpdBegin { key: usize, op: &'static str, v: f64, n: u64 },
     UpdEnd { key: usize, op: &'static str, v: f64, n: u64 },
@@ -274,6 +276,42 @@ pub struct RegistryGate {
 /// goes back to the registry: the readouts are issued by the real reporter task, outside the RegistryGate, and a
 /// registry lookup made while that task sits at a scheduling point inside a readout would block in the
 /// registry's real lock if the readout ever held it exclusively.
+/// Scenario `bridge`, plan key `decoy`: a second bridge lives in the same process (a scoped recorder next to the
+/// service-wide one, say). Right before a thread registers a key on the bridge under test it registers the *same* key
+/// on the decoy and updates it there with a distinctive value: nothing of that may show up in the bridge under test,
+/// and nothing meant for the bridge under test may end up in the decoy.
+#[derive(Clone, Default)]
+struct Decoy {
+    rec: Option<Rec>,
+    /// per key index: updates made on the decoy
+    updates: Arc<Mutex<BTreeMap<usize, u64>>>,
+}
+static DECOY: Mutex<Option<Decoy>> = Mutex::new(None);
+const DECOY_INC: u64 = 1_000_003;
+
+fn decoy_touch(spec: &KeySpec, ki: usize, via_local: bool) {
+    let Some(d) = DECOY.lock().unwrap().clone() else { return };
+    let Some(rec) = d.rec.clone() else { return };
+    let h = if via_local {
+        metrics::with_local_recorder(&rec, || metrics::with_recorder(|r| {
+            let key = mk_key(spec);
+            match spec.kind.as_str() {
+                "c" => Handle::C(r.register_counter(&key, &META)),
+                "h" => Handle::H(r.register_histogram(&key, &META)),
+                _ => Handle::G(r.register_gauge(&key, &META)),
+            }
+        }))
+    } else {
+        register(&rec, spec)
+    };
+    match h {
+        Handle::C(c) => c.increment(DECOY_INC),
+        Handle::G(g) => g.set(555.0),
+        Handle::H(h) => h.record(777.0),
+    }
+    *d.updates.lock().unwrap().entry(ki).or_insert(0) += 1;
+}
+
 fn updater(rec: Rec, log: BLog, plan: Value, ops: Vec<Value>, gate: RegistryGate, held: Option<BTreeMap<usize, Handle>>) {
     let keys = keys_of(&plan);
     let no_registry = held.is_some();
@@ -291,6 +329,7 @@ fn updater(rec: Rec, log: BLog, plan: Value, ops: Vec<Value>, gate: RegistryGate
                 let fresh = jb(op, "fresh", false);
                 if (fresh && !no_registry) || !cache.contains_key(&ki) {
                     let _excl = gate.lock.read().unwrap_or_else(|e| e.into_inner());
+                    decoy_touch(spec, ki, via_local);
                     let h = if via_local {
                         // through the thread-local recorder, as the `metrics` macros do
                         metrics::with_local_recorder(&rec, || metrics::with_recorder(|r| {
@@ -373,6 +412,8 @@ fn bridge_main(plan: &Value, log: BLog) {
         }
     }
     let gate = RegistryGate::default();
+    let decoy = Decoy { rec: if jb(plan, "decoy", false) { Some(MetricRecorder::new_with_emit_zero_counters(false)) } else { None }, updates: Default::default() };
+    *DECOY.lock().unwrap() = Some(decoy.clone());
     let mut hs = vec![];
     for (i, t) in ja(plan, "threads").iter().enumerate() {
         let ops: Vec<Value> = t.as_array().cloned().unwrap_or_default();
@@ -411,6 +452,25 @@ fn bridge_main(plan: &Value, log: BLog) {
     if jb(plan, "second_final", false) {
         do_readout(&rec, &log, 1_000_001, &wall, &gate);
     }
+    // the decoy bridge holds exactly what was put into it
+    *DECOY.lock().unwrap() = None;
+    if let Some(drec) = &decoy.rec {
+        let out = replay_entry(&drec.readout());
+        let keys = keys_of(plan);
+        let ups = decoy.updates.lock().unwrap().clone();
+        for (ki, n) in ups {
+            let Some(spec) = keys.get(ki) else { continue };
+            if spec.kind != "c" {
+                continue;
+            }
+            let mut labels = spec.labels.clone();
+            labels.sort();
+            let got: f64 = out.metrics.iter().filter(|m| m.name == spec.name && { let mut d = m.dims.clone(); d.sort(); d == labels }).map(|m| m.obs.iter().map(|o| match o { Obs::U(v) => *v as f64, Obs::F(v) => *v, Obs::R { total, .. } => *total }).sum::<f64>()).sum();
+            if got != (n * DECOY_INC) as f64 {
+                log.log(BK::DecoyWrong { key: ki, got, want: (n * DECOY_INC) as f64 });
+            }
+        }
+    }
 }
 
 // ------------------------------------------------------------------------------------------
@@ -432,6 +492,9 @@ fn hist_expected(v: f64) -> f64 {
 
 pub fn check_c20(plan: &Value, h: &[BEv]) -> Option<Violation> {
     let keys = keys_of(plan);
+    if let Some(BK::DecoyWrong { key, got, want }) = h.iter().map(|e| &e.k).find(|k| matches!(k, BK::DecoyWrong { .. })) {
+        return Some(Violation::new("counter_increment_misrouted", format!("a second bridge in the same process, whose counter {:?} was incremented by {want} in total, reports {got}: updates meant for one bridge ended up in the other", keys.get(*key).map(|k| k.name.clone()))));
+    }
     let emit_zero = jb(plan, "emit_zero", false);
     // readouts
     let mut begins: BTreeMap<u64, (u64, i64)> = BTreeMap::new();
@@ -744,7 +807,10 @@ pub fn gen_c20(rng: &mut Rng, tier: Tier) -> Value {
             let used = keys.iter().filter(|k| js(k, "name", "") == n).map(|k| k["labels"].to_string()).collect();
             (n, used)
         } else {
-            (format!("{kind}{i}"), vec![])
+            // one name in twelve is long: 300, 1 100 or 5 000 bytes (peeked from a copy of the generator: no draw moves)
+            let peek = rng.clone().next_u64();
+            let pad = if peek % 12 == 0 { [300usize, 1_100, 5_000][(peek / 12 % 3) as usize] } else { 0 };
+            (format!("{kind}{i}{}", "n".repeat(pad)), vec![])
         };
         let mut ls = label_sets[rng.usize_below(label_sets.len())];
         let mut tries = 0;
@@ -872,14 +938,19 @@ pub fn gen_c20(rng: &mut Rng, tier: Tier) -> Value {
     }
     let est = 40 + 12 * threads.iter().map(|t| t.len() as u64).sum::<u64>() + 10 * nr * keys.len() as u64;
     let sched = gen_sched(rng, &SchedOpts { est_choices: est, threads: nthreads + 1, jump_max_ns: 0, stall_clock_max_ns: 0, max_steps: 40_000 });
+    // a quarter of the runs: a second bridge in the same process (decided from the schedule seed)
+    let decoy = mix(ju(&sched, "seed", 0), 0xdec0) % 4 == 0;
     json!({
         "sched": sched, "emit_zero": rng.chance(0.4), "strip_timestamp": rng.chance(0.15), "via_local": rng.chance(0.3), "keys": keys, "units": units, "units2": units2,
-        "describe_first": describe_first, "threads": threads, "reporter": reporter, "second_final": rng.chance(0.3),
+        "describe_first": describe_first, "threads": threads, "reporter": reporter, "second_final": rng.chance(0.3), "decoy": decoy,
     })
 }
 
 fn fill_report(r: &mut Report, plan: &Value, h: &[BEv]) {
     let keys = keys_of(plan);
+    if jb(plan, "decoy", false) {
+        r.probe("second_bridge_in_the_process", 1);
+    }
     let mut st = BTreeSet::new();
     let mut in_read = false;
     let mut open_upd = 0u64;
